@@ -12,6 +12,7 @@ from vlib.trace import reached, concrete, realize_int, pick
 from vlib import xh
 
 LAST_FAILURE = None
+LAST_TEXT_BODY = (None, None)
 NPOOL, NRET = len(ARG_POOL), len(RET_POOL)
 ROLES = ("ctor", "method", "method_nc", "static", "function")
 
@@ -99,6 +100,8 @@ def check_callable(role, n, k, t0, t1, t2, r, flavour, nsdepth):
         decl = "%sclass Cls { %s };" % (head, member)
     text = PRELUDE + "".join("namespace %s {\n" % x for x in nss) + decl + "\n" + "}\n" * len(nss)
     body = pipe.pybind_body(text)
+    global LAST_TEXT_BODY
+    LAST_TEXT_BODY = (text, body)
     ents = readers.parse_pybind(body)
     ns_prefix = "::".join(nss)
     insts = [T("Other", ns=("ns",)), T("double")] if (tmpl_class or tmpl_method) else [None]
